@@ -150,6 +150,45 @@ CLAIMS.update({
    technique='contract-based deductive verification of string builders over opaque text tokens (structure / taint obligations + per-character escape lemmas); bounded independent-parser stand-in',
    design='4/C16'),
 })
+CLAIMS.update({
+ 'C09': dict(
+   category='exploration',
+   text='BOUNDED run-time contracts (not a proof): every raster / text writer (PNG, PBM P1/P4, PAM, PPM, XBM, XPM, TXT, ANSI terminal, compact terminal) is '
+        'called on real symbols of assorted versions and on adversarial matrices over a seeded grid of scale (incl. non-integer), border, colour sets '
+        '(named, hex, tuples, alpha, transparent) and format options; the output is read back by independent format readers (signature, every chunk CRC, '
+        'IHDR/PLTE/tRNS consistency, declared size == data, filter reconstruction) and every pixel is compared with the module it depicts; colourful PNG/PPM: '
+        'every module has the colour configured for its ISO type. Deductive: only the size / scale / border arithmetic (symbolic integers) and, in C11, the matrix '
+        'iteration kernel for every module of all 44 sizes.',
+   note='The serialisers use zlib, struct, text codecs and streams: outside the reach of the deductive tool built here; stated as bounded in DESIGN.md. '
+        'Trusted: spec/readers_raster.py.',
+   technique='bounded stand-in: run-time contracts with independent format readers on an enumerated / seeded grid (deductive only for size arithmetic)',
+   design='4/C09'),
+ 'C10': dict(
+   category='proof',
+   text='Deductive kernel: utils.matrix_to_lines is proved for a matrix with ANY number of rows of ANY width (symbolic) by loop invariants with a ghost cover '
+        'count: every dark module is covered by exactly one yielded segment, no light module and nothing outside the row is covered, every segment is a '
+        'non-empty horizontal run on its row. BOUNDED (labelled, not counted): the SVG / EPS / PDF / PGF documents are read back by independent readers '
+        '(page box, scale transform, covered unit squares == dark modules, stroke / background colours, PDF /Length and xref offsets, XML well-formedness, title/desc escaping) '
+        'on a seeded grid of symbols x integer and fractional scales x borders x colours x SVG options.',
+   note='Trusted: pyvc + z3 for the kernel (precondition: first module of the symbol is dark); spec/readers_vector.py for the bounded document clauses; '
+        'the coordinate arithmetic of the four writers themselves is only covered by the bounded clauses.',
+   technique='contract-based deductive verification of the run-length kernel (loop invariants, ghost cover count); bounded independent-reader stand-in for the documents',
+   design='4/C10'),
+})
+CLAIMS.update({
+ 'C12': dict(
+   category='proof',
+   text='Deductive forwarding lemmas with the serialisers as uninterpreted effects: writers.save dispatches every extension / kind of the serialiser table '
+        '(lower, upper, capitalised; file name, stream + kind, stream.name) to its serialiser with exactly the given matrix, size, target and keyword options, unknown '
+        'extensions raise ValueError; QRCode.save, svg_inline (xmldecl / namespace / newline off), svg_data_uri, png_data_uri, as_svg_data_uri, as_png_data_uri forward '
+        'every option under its own name; QRCodeSequence.save writes stem-NN-MM.ext for 1..16 symbols, each with the same options. '
+        'BOUNDED (labelled): byte comparison on real symbols x 12 kinds x option sets of path (mixed-case extension) vs stream, gunzipped svgz, base64 / percent '
+        'decoded data URIs, svg_inline, the file written by segno.cli.main with the corresponding flags (timestamps masked), terminal output, sequence files. '
+        'One known finding (quote style of the SVG data URI).',
+   note='Trusted: pyvc for the forwarding lemmas; gzip/base64/unquote inverses; argparse runs natively in the bounded CLI route.',
+   technique='contract-based deductive verification of the dispatch / forwarding layer (uninterpreted serialisers); bounded byte comparison of the routes incl. the CLI',
+   design='4/C12'),
+})
 NOT_YET = {
 }
 ALL = ['C%02d' % i for i in range(1, 17)]
